@@ -9,6 +9,7 @@ it; then applies it to /repo, runs ./check <ID>, and always restores /repo.
 Writes /verif/seeded/<ID>-<i>/{patch.diff, demo file, meta.json}.
 """
 import json, os, shutil, subprocess, sys, glob, time
+V = os.path.dirname(os.path.dirname(os.path.abspath(__file__)))  # the framework directory this tool belongs to (/verif, or a snapshot of it)
 
 ENV = dict(os.environ, GOFLAGS="-mod=mod", GOPROXY="off", GOSUMDB="off", GOTOOLCHAIN="local")
 
@@ -30,7 +31,7 @@ def main():
     if not demos:
         print("no demo"); sys.exit(2)
     demo = demos[0]
-    dest = f"/verif/seeded/{pid}-{tag}{i}"
+    dest = f"{V}/seeded/{pid}-{tag}{i}"
     os.makedirs(dest, exist_ok=True)
     wt = f"/tmp/ev-{pid}-{tag}{i}"
     sh(f"git -C /repo worktree remove --force {wt}")
@@ -84,7 +85,7 @@ def main():
         assert rc == 0, out
         try:
             t0 = time.time()
-            rc, out = sh(f"VERIF_REPO_DIR={cw} VERIF_OUT_DIR={co} ./check {pid} {tier}", cwd="/verif", timeout=3600)
+            rc, out = sh(f"VERIF_REPO_DIR={cw} VERIF_OUT_DIR={co} ./check {pid} {tier}", cwd=V, timeout=3600)
             check = {"cmd": f"./check {pid} {tier}  (against a scratch worktree of /repo carrying patch.diff)", "exit": rc, "wall_s": round(time.time() - t0, 1),
                      "violation_lines": [l.replace(co, "<out>") for l in out.splitlines() if l.startswith("VIOLATION") or l.strip().startswith("signature:")][:12],
                      "tail": out[-400:].replace(co, "<out>")}
